@@ -55,7 +55,10 @@ RULE = ('corpus first, then random cases over ops {collect_charge (scalar/vector
         '[1.0] / ones frame / ones cube), the cross product of 8 gain forms x capacity None/given x frame float64/float32/int64/'
         'nested list digitised three times in a row and judged against the original frame}; frames as float64/float32/int64/int32/uint16/uint8/list, '
         'array_likes as ndarray/list/tuple, scalars as float/int/0-d array, dtype as str/type/np.dtype, capacity as Python or '
-        'numpy scalar, electron counts whose powers a sloppy pow() rounds wrongly; thorough adds all '
+        'numpy scalar, electron counts whose powers a sloppy pow() rounds wrongly; efficiency tables whose wavelength NUMBERS '
+        'equal the cube\'s in another unit (efficiency 0 outside the table); faint non-zero efficiencies 2^-24..2^-50 '
+        '(uniform or one leaking slice) with large photon counts; inputs as ndarray subclasses (MaskedArray without masked '
+        'entries, matrix, metadata subclass, memmap); flags as bool / numpy bool / int; thorough adds all '
         '81 2x2 patterns x oversample 1..5; non-trivial = more than one wavelength / pattern or oversample > 1 / '
         'non-scalar gain or saturation or negative input; distinct by case hash')
 
@@ -74,7 +77,8 @@ def to_unit(w_nm, unit):
 
 
 def spectrum_exact(qe, w_nm):
-    """exact piecewise-linear interpolation of the spectrum at w_nm (strictly inside the grid)"""
+    """exact piecewise-linear interpolation of the spectrum at w_nm; outside the table the efficiency is 0 (the documented
+    fill value of Spectrum.sample, which collect_charge uses unchanged)"""
     g = [F(x) for x in qe['grid']]
     v = [F(x) for x in qe['vals']]
     w = F(w_nm)
@@ -82,7 +86,7 @@ def spectrum_exact(qe, w_nm):
         if g[a] <= w <= g[a + 1]:
             t = (w - g[a]) / (g[a + 1] - g[a])
             return v[a] + t * (v[a + 1] - v[a])
-    raise ValueError('sample wavelength outside the spectrum')
+    return Fraction(0)
 
 
 def qe_vector(qe, wave_nm):
@@ -94,13 +98,55 @@ def qe_vector(qe, wave_nm):
     return [spectrum_exact(qe, w) for w in wave_nm]
 
 
-def as_form(vals, form):
+class MetaArray(np.ndarray):
+    """an ndarray subclass carrying metadata (what astropy/xarray-like containers hand over)"""
+    def __new__(cls, a, info=None):
+        obj = np.asarray(a).view(cls)
+        obj.info = info
+        return obj
+
+    def __array_finalize__(self, obj):
+        self.info = getattr(obj, 'info', None)
+
+
+WRAPS = [None] * 8 + ['masked', 'masked_false', 'matrix', 'sub', 'memmap']
+
+
+def wrap(a, kind):
+    """the same data as an ndarray subclass: results must equal those for the plain ndarray"""
+    if kind is None or not isinstance(a, np.ndarray):
+        return a
+    if kind == 'masked':
+        return np.ma.MaskedArray(a)
+    if kind == 'masked_false':
+        return np.ma.MaskedArray(a, mask=np.zeros(a.shape, dtype=bool))
+    if kind == 'matrix':
+        return np.matrix(a) if a.ndim == 2 else a
+    if kind == 'sub':
+        return MetaArray(a, info={'origin': 'test'})
+    if kind == 'memmap':
+        if a.size == 0:
+            return a
+        import tempfile
+        fh = tempfile.TemporaryFile()
+        m = np.memmap(fh, dtype=a.dtype, mode='w+', shape=a.shape)
+        m[...] = a
+        return m
+    raise ValueError(kind)
+
+
+def flag(v, form):
+    """a truthy / falsy flag in a legal non-bool form"""
+    return (np.True_ if v else np.False_) if form == 'np' else ((1 if v else 0) if form == 'int' else bool(v))
+
+
+def as_form(vals, form, wrap_kind=None):
     """a documented argument form of an array_like: ndarray (default), nested list, nested tuple"""
     if form == 'list':
         return vals
     if form == 'tuple':
         return json_map_t(vals)
-    return np.array(vals, dtype=float)
+    return wrap(np.array(vals, dtype=float), wrap_kind)
 
 
 def json_map_t(x):
@@ -117,7 +163,7 @@ def qe_impl(qe):
             return int(v)
         return float(v)
     if qe['kind'] == 'vec':
-        return as_form([float(F(x)) for x in qe['v']], qe.get('form'))
+        return as_form([float(F(x)) for x in qe['v']], qe.get('form'), qe.get('wrap'))
     u = qe['unit']
     return lentil.radiometry.Spectrum(np.array([to_unit(x, u) for x in qe['grid']]),
                                       np.array([float(F(x)) for x in qe['vals']]), waveunit=u)
@@ -145,13 +191,13 @@ def img_shape(img):
     return a.shape
 
 
-def np_img(img, dtype=float):
-    return np.array([[[float(F(v)) for v in row] for row in sl] for sl in img] if len(img_shape(img)) == 3
-                    else [[float(F(v)) for v in row] for row in img], dtype=np.dtype(dtype or 'float64'))
+def np_img(img, dtype=float, wrap_kind=None):
+    return wrap(np.array([[[float(F(v)) for v in row] for row in sl] for sl in img] if len(img_shape(img)) == 3
+                         else [[float(F(v)) for v in row] for row in img], dtype=np.dtype(dtype or 'float64')), wrap_kind)
 
 
 def mk_wave(c):
-    return as_form([to_unit(w, c['unit']) for w in c['wave']], c.get('wave_form'))
+    return as_form([to_unit(w, c['unit']) for w in c['wave']], c.get('wave_form'), c.get('wave_wrap'))
 
 
 def mk_os(c):
@@ -186,6 +232,41 @@ def rnd_qe(rng, wave_nm, kinds=('scalar', 'vec', 'spectrum')):
     return {'kind': 'spectrum', 'unit': rng.choice(UNITS), 'grid': grid, 'vals': [str(rng.choice(DY)) for _ in grid]}
 
 
+def scale_qe(q, s, only=None):
+    """the efficiency multiplied by 2**-s (exactly: the regime stays exact); only=k scales one vector entry (filter leak)"""
+    q = dict(q)
+    m = F(1, 2 ** s)
+    if q['kind'] == 'scalar':
+        q['v'] = str(F(q['v']) * m)
+        q['form'] = 'float'
+    elif q['kind'] == 'vec':
+        q['v'] = [str(F(v) * m) if only is None or k == only else v for k, v in enumerate(q['v'])]
+    else:
+        q['vals'] = [str(F(v) * m) for v in q['vals']]
+    return q
+
+
+def faint(rng, case, keys):
+    """class 'absolute tolerance on a scaled quantity': efficiencies of order 1e-8 .. 1e-15 (non-zero, exact dyadics) with
+    photon counts large enough for the slice to matter; every operation of the property is linear, the oracle is exact"""
+    s = rng.choice([24, 27, 30, 34, 40, 50])
+    leak = rng.random() < 0.35 and any(case[k]['kind'] == 'vec' and len(case[k]['v']) > 1 for k in keys)
+    if leak:          # ordinary and faint slices are summed: keep the whole sum inside 53 bits
+        s = min(s, 40)
+    for k in keys:
+        q = case[k]
+        if leak and q['kind'] == 'vec' and len(q['v']) > 1:
+            case[k] = scale_qe(q, s, only=rng.randrange(len(q['v'])))
+        else:
+            case[k] = scale_qe(q, s)
+    p = 2 ** (rng.choice([0, 40 - s]) if leak else rng.choice([0, 10, 20, s - 4 if s <= 34 else 20]))
+    img = case['img']
+    case['img'] = [[[v * p for v in row] for row in sl] for sl in img] if len(img_shape(img)) == 3 else \
+        [[v * p for v in row] for row in img]
+    case['img_dtype'] = rng.choice(['float64', 'float64', 'int64'])
+    return case
+
+
 def rnd_cube(rng, k, r, c, hi=20):
     return [[[rng.randint(0, hi) for _ in range(c)] for _ in range(r)] for _ in range(k)]
 
@@ -217,6 +298,12 @@ def gen_collect(rng):
         case['qe'] = rnd_qe(rng, case['wave'], ('scalar', 'vec'))
     elif u < 0.09 and case['qe']['kind'] == 'vec':   # efficiency vector of the wrong length
         case['qe']['v'] = case['qe']['v'] + ['1/2'] if rng.random() < 0.5 else case['qe']['v'][:-1] or ['1/4', '1/2']
+    elif u < 0.30:
+        faint(rng, case, ['qe'])
+    case['img_wrap'] = rng.choice(WRAPS)
+    case['wave_wrap'] = rng.choice(WRAPS)
+    if case['qe']['kind'] == 'vec':
+        case['qe']['wrap'] = rng.choice(WRAPS)
     return case
 
 
@@ -248,6 +335,13 @@ def gen_bayer(rng, pk=None, os_=None, pat=None):
         case['pattern'] = ''.join(s)
     elif u < 0.06:        # not a perfect square
         case['pattern'] = case['pattern'] + rng.choice('RGB') * rng.choice([1, 2])
+    elif u < 0.22:
+        faint(rng, case, ['qr', 'qg', 'qb'])
+    case['img_wrap'] = rng.choice(WRAPS)
+    case['flatten_form'] = rng.choice(['bool', 'bool', 'np', 'int'])
+    for k in ('qr', 'qg', 'qb'):
+        if case[k]['kind'] == 'vec':
+            case[k]['wrap'] = rng.choice(WRAPS)
     return case
 
 
@@ -415,6 +509,36 @@ def gen_table_on_cube(rng):
     return case
 
 
+NM_PER = {'nm': F(1), 'angstrom': F(1, 10), 'um': F(1000)}
+
+
+def gen_number_coincidence(rng):
+    """the efficiency Spectrum is tabulated in one unit at the very NUMBERS at which the cube is given in another unit
+    (table 1200 .. 9600 angstrom, cube at 1200 .. 9600 nm): the wavelength arrays are element-wise equal, the wavelengths
+    are not.  Requests are kept 0.1 % away from the table's end points (inside: interpolated, outside: efficiency 0)."""
+    T, U = rng.choice([('angstrom', 'nm'), ('nm', 'angstrom'), ('um', 'nm'), ('nm', 'um'), ('angstrom', 'um'), ('um', 'angstrom')])
+    nw = rng.randint(2, 4)
+    pool = [3, 6, 12, 15, 24, 30, 48, 60, 96, 120, 150, 240, 300, 480, 600, 960, 1200, 2400, 3000, 4800, 6000, 9600, 11000]
+    for _ in range(200):
+        N = sorted(rng.sample(pool, nw))
+        lo, hi = N[0] * NM_PER[T], N[-1] * NM_PER[T]
+        req = [n * NM_PER[U] for n in N]
+        if all(abs(x - lo) > lo / 1000 and abs(x - hi) > hi / 1000 for x in req):
+            break
+    js = lambda x: int(x) if x.denominator == 1 else str(x)
+    def spec():
+        return {'kind': 'spectrum', 'unit': T, 'grid': [js(n * NM_PER[T]) for n in N], 'vals': [str(rng.choice(DY[1:])) for _ in N]}
+    r, c = rng.choice([(2, 2), (4, 4), (2, 6), (3, 5)])
+    case = {'img': rnd_cube(rng, nw, r, c, hi=12), 'img_dtype': 'float64', 'wave': [js(x) for x in req], 'unit': U,
+            'wave_form': rng.choice(['ndarray', 'list'])}
+    if rng.random() < 0.65 or r % 2 or c % 2:
+        case.update(op='collect', qe=spec())
+    else:
+        case.update(op='bayer', qr=spec(), qg=rng.choice([spec(), rnd_qe(rng, req, ('scalar', 'vec'))]), qb=spec(),
+                    pattern=rnd_pattern(rng, 2), os=1, flatten=rng.random() < 0.6, os_form='int')
+    return case
+
+
 def gen_adc_seq(rng):
     """ONE frame object (and, unless a call brings its own, ONE gain object) used in 2..4 adc calls that differ in
     capacity / warning / output type / gain; every call is judged against the original frame"""
@@ -543,9 +667,12 @@ def gen_adc(rng):
     if 'form' not in gain:
         gain['form'] = rng.choice(['ndarray', 'ndarray', 'list', 'tuple']) if gain['ndim'] in (1, 2, 3) else \
             rng.choice(['float', 'float', '0d', 'int'])
+    if gain['ndim'] in (1, 2, 3) and gain['form'] == 'ndarray':
+        gain['wrap'] = rng.choice(WRAPS)
     case = {'op': 'adc', 'img': img, 'int_img': int_img, 'img_dtype': img_dtype, 'gain': gain, 'sat': sat,
             'sat_form': rng.choice(['py', 'py', 'np']), 'warn': rng.random() < 0.6, 'dtype': None,
-            'dtype_form': rng.choice(['dtype', 'str', 'type'])}
+            'dtype_form': rng.choice(['dtype', 'str', 'type']), 'img_wrap': rng.choice(WRAPS),
+            'warn_form': rng.choice(['bool', 'bool', 'np', 'int'])}
     if rng.random() < 0.5:
         exp = adc_expected(case)
         if exp is not None:
@@ -588,6 +715,8 @@ def generate(rng, tier):
         yield gen_adc_seq(rng)
     for _ in range(60 if tier == 'quick' else 600):
         yield gen_table_on_cube(rng)
+    for _ in range(40 if tier == 'quick' else 400):
+        yield gen_number_coincidence(rng)
     yield from gen_adc_cross()
     if tier == 'thorough':
         for pat in itertools.product('RGB', repeat=4):
@@ -725,8 +854,8 @@ def mk_frame(c):
     if dt == 'list':          # a nested Python list (array_like)
         return [[(int(F(v)) if F(v).denominator == 1 else float(F(v))) for v in row] for row in c['img']]
     if dt.startswith('int'):
-        return np.array([[int(F(v)) for v in row] for row in c['img']], dtype=np.dtype(dt))
-    return np.array([[float(F(v)) for v in row] for row in c['img']], dtype=np.dtype(dt))
+        return wrap(np.array([[int(F(v)) for v in row] for row in c['img']], dtype=np.dtype(dt)), c.get('img_wrap'))
+    return wrap(np.array([[float(F(v)) for v in row] for row in c['img']], dtype=np.dtype(dt)), c.get('img_wrap'))
 
 
 def mk_gain(g):
@@ -740,7 +869,7 @@ def mk_gain(g):
         return float(v)
     if g['ndim'] == 1 and len(g['v']) == 0:
         return [] if form == 'list' else (() if form == 'tuple' else np.zeros((0,)))
-    return as_form(json_map(g['v'], lambda x: float(F(x))), form)
+    return as_form(json_map(g['v'], lambda x: float(F(x))), form, g.get('wrap'))
 
 
 def call_collect(D, c, img, wave, qe):
@@ -753,7 +882,7 @@ def call_collect(D, c, img, wave, qe):
 def call_bayer(D, c, img, wave, qr, qg, qb):
     try:
         out = D.collect_charge_bayer(img, wave, qr, qg, qb, c['pattern'], oversample=mk_os(c), waveunit=c['unit'],
-                                     flatten=c['flatten'])
+                                     flatten=flag(c['flatten'], c.get('flatten_form')))
         if c['flatten']:
             return canon_arr(out)
         if len(out) != 3:
@@ -795,7 +924,7 @@ def call_adc(D, c, img, gain):
             kw['dtype'] = c['dtype'] if form == 'str' else (np.dtype(c['dtype']).type if form == 'type' else np.dtype(c['dtype']))
         with warnings.catch_warnings(record=True) as rec:
             warnings.simplefilter('always')
-            out = D.adc(img, gain, saturation_capacity=sat, warn_saturate=c['warn'], **kw)
+            out = D.adc(img, gain, saturation_capacity=sat, warn_saturate=flag(c['warn'], c.get('warn_form')), **kw)
         out = np.asarray(out)
         return {'warned': any('saturat' in str(w.message).lower() for w in rec),
                 'n_warnings': len(rec),
@@ -833,7 +962,7 @@ def run_impl(c):
     if op == 'bayer_seq':        # the calls of the sequence, in order, in this process
         return {'seq': [run_impl(sc) for sc in sub_cases(c)]}
     if op == 'qe_seq':           # one frame and one pool of efficiency objects shared by all calls of the history
-        img = np_img(c['img'], c.get('img_dtype'))
+        img = np_img(c['img'], c.get('img_dtype'), c.get('img_wrap'))
         pool = [qe_impl(q) for q in c['pool']]
         states = {k: spectrum_state(o) for k, o in enumerate(pool) if c['pool'][k]['kind'] == 'spectrum'}
         out = []
@@ -854,9 +983,9 @@ def run_impl(c):
         return {'seq': [call_adc(D, sc, img, mk_gain(call['gain']) if 'gain' in call else gain)
                         for call, sc in zip(c['calls'], sub_cases(c))]}
     if op == 'collect':
-        return call_collect(D, c, np_img(c['img'], c.get('img_dtype')), mk_wave(c), qe_impl(c['qe']))
+        return call_collect(D, c, np_img(c['img'], c.get('img_dtype'), c.get('img_wrap')), mk_wave(c), qe_impl(c['qe']))
     if op == 'bayer':
-        return call_bayer(D, c, np_img(c['img'], c.get('img_dtype')), mk_wave(c), qe_impl(c['qr']), qe_impl(c['qg']),
+        return call_bayer(D, c, np_img(c['img'], c.get('img_dtype'), c.get('img_wrap')), mk_wave(c), qe_impl(c['qr']), qe_impl(c['qg']),
                           qe_impl(c['qb']))
     if op == 'adc':
         return call_adc(D, c, mk_frame(c), mk_gain(c['gain']))
@@ -877,11 +1006,28 @@ def json_map(x, f):
 
 
 # ------------------------------------------------------------------ comparison
+TOL_FLOOR = [1.0]      # absolute floor of the 1e-9 comparison of spectrum cases: min(1, magnitude of the case)
+
+
 def close(x, y, exact):
     """x: float from the implementation, y: Fraction"""
     if exact:
         return C.frac(x) == y
-    return abs(x - float(y)) <= 1e-9 * (1 + abs(float(y)))
+    return abs(x - float(y)) <= 1e-9 * (TOL_FLOOR[0] + abs(float(y)))
+
+
+def set_tol_floor(c):
+    """spectrum cases are compared to 1e-9 relative with an absolute floor; the floor follows the scale of the case
+    (largest photon count x largest efficiency) when that is below one, so that faint / low-efficiency cases are not
+    compared more loosely than ordinary ones"""
+    TOL_FLOOR[0] = 1.0
+    qs = [c[k] for k in ('qe', 'qr', 'qg', 'qb') if isinstance(c.get(k), dict)]
+    if not qs or 'img' not in c:
+        return
+    mq = max([abs(F(v)) for q in qs for v in (q['vals'] if q['kind'] == 'spectrum' else
+                                                 (q['v'] if q['kind'] == 'vec' else [q['v']]))] + [0])
+    mp = max([abs(F(v)) for sl in cube_of(c) for row in sl for v in row] + [0]) * len(cube_of(c))
+    TOL_FLOOR[0] = float(min(1, mq * mp))
 
 
 def cmp_qarr(impl, model, exact, what):
@@ -946,6 +1092,7 @@ def compare(c, impl, model):
     if 'err' in impl:
         return None if impl['err'] == model['err'] else f'error kinds differ: impl {impl["err"]} model {model["err"]}'
     exact = not has_spectrum(c)
+    set_tol_floor(c)
     if op == 'collect' or (op == 'bayer' and c['flatten']):
         return cmp_qarr(impl, model, exact, op)
     if op == 'bayer':
@@ -1066,6 +1213,7 @@ def oracle(c, impl):
                         f'(every call is judged against the ORIGINAL frame {c["img"]}): {m}')
         return None
     exact = not has_spectrum(c)
+    set_tol_floor(c)
     if op in ('bayer', 'adc') and pinned(c) == 'error':
         what = 'pattern string' if op == 'bayer' else 'gain'
         return None if impl.get('err') == 'ValueError' else f'{op}: an invalid {what} was not refused with ValueError: {str(impl)[:200]}'
